@@ -45,6 +45,11 @@ package schema
 //@   ensures result == consOf(self).data[t]
 //@   ensures (result != nil) == hasRule(self, t)
 
+//@ interface Node.BasisLexEventOfSchemaForNode(self)
+//@   requires isNode(self)
+//@   pure
+//@   ensures result == basisLex(self)
+
 //@ interface Node.NumberOfConstraints(self)
 //@   requires isNode(self) && consReady(self)
 //@   nopanic
